@@ -2,6 +2,7 @@ package main
 
 import (
 	"fmt"
+	"net"
 	"strings"
 
 	tally "github.com/uber-go/tally/v4"
@@ -116,9 +117,15 @@ func c15ReporterJobs(tier string) []*SeqJob {
 		return func(hist []int) (cl, det, key string, steps int) {
 			good := newFastSink()
 			defer good.close()
-			dead := newFastSink()
-			deadAddr := dead.addr
-			dead.close()
+			// the dead port stays reserved for this execution: a UDP socket bound to it and connected to another peer
+			// (port 1) receives nothing from our transport - the kernel finds no matching socket and answers "port
+			// unreachable" - while no other worker process can be handed the port number for one of its sinks
+			dead, derr := net.DialUDP("udp", &net.UDPAddr{IP: net.IPv4(127, 0, 0, 1)}, &net.UDPAddr{IP: net.IPv4(127, 0, 0, 1), Port: 1})
+			if derr != nil {
+				return "", "", fmt.Sprint(kind, "dead", hist), 0
+			}
+			defer dead.Close()
+			deadAddr := dead.LocalAddr().String()
 			cl, det = guard(func() (string, string) {
 				r, err := m3.NewReporter(m3.Options{HostPorts: []string{deadAddr, good.addr}, Service: "svc", Env: "test", Protocol: m3Proto(kind), MaxQueueSize: 64, MaxPacketSizeBytes: 32768})
 				if err != nil {
@@ -202,6 +209,7 @@ func c15ReporterJobs(tier string) []*SeqJob {
 			defer s.close()
 			steps := 0
 			var rcl, rdet string
+			var dgsLong [][]byte
 			caseHorizon = 20000000 // one long default schedule
 			defer func() { caseHorizon = 0 }()
 			ccl, cdet := controlledCase(0, func() {
@@ -233,6 +241,8 @@ func c15ReporterJobs(tier string) []*SeqJob {
 					r.Flush()
 					small.ReportCount(int64(1000 + i))
 					r.Flush()
+					// (the socket's receive queue is limited: take out what has arrived so far)
+					dgsLong = s.readAvailable(dgsLong)
 				}
 				if err := r.Close(); err != nil {
 					rcl, rdet = "close-error", err.Error()
@@ -245,7 +255,7 @@ func c15ReporterJobs(tier string) []*SeqJob {
 				return rcl, rdet, steps
 			}
 			seen := map[int64]int{}
-			for i, dg := range s.readAvailable(nil) {
+			for i, dg := range s.readAvailable(dgsLong) {
 				msg, err := decodeMessage(kind, dg)
 				if err != nil || msg.Left != 0 {
 					return "corrupt-datagram-after-failed-message", fmt.Sprintf("[%s, limit %d] datagram %d (%d bytes) is not one complete message: %v", kind, limit, i, len(dg), err), steps
